@@ -67,10 +67,14 @@ def h_read(ex, st, o, args, kwargs, node, ev):
     return b
 
 
+MAGIC_AT = z3.Function("shorten_magic_at", I, z3.BoolSort())
+
+
 def h_compare(ex, st, op, a, b, n, ev):
     if isinstance(a, Arr) and isinstance(b, bytes):
-        # the shorten magic: outside this contract (C13); the branch is kept as an uninterpreted condition
-        return z3.Bool("data_starts_with_shorten_magic")
+        # the shorten magic at the start of THIS buffer: an uninterpreted predicate of the buffer's position in the data section
+        # (what the bytes are is C13's business; where they are looked for is this contract's)
+        return MAGIC_AT(Z(a.off))
     return NotImplemented
 
 
@@ -188,7 +192,12 @@ def contract():
         "VAL": SpecFn(_val), "FLAT": SpecFn(_flat), "COUNT": SpecFn(_count), "SHAPE_OK": SpecFn(_shape_ok), "NRET": SpecFn(_nret),
         "BUFK": SpecFn(lambda ev: z3.If(16384 / (ev.ex.ctx["c"] * ev.ex.ctx["w"]) > 1, 16384 / (ev.ex.ctx["c"] * ev.ex.ctx["w"]), 1)),
         "CW": SpecFn(lambda ev: ev.ex.ctx["c"] * ev.ex.ctx["w"]), "BLEN": SpecFn(lambda ev: ev.ex.ctx["blen"]),
+        "MAGIC0": SpecFn(lambda ev: MAGIC_AT(z3.IntVal(0))),
     }
+    from pyvc import extract as _ex
+    for k_, v_ in _ex.module_constants("_sphere").items():  # module-level names the function may refer to (MAGIC, BUFSIZ, ...)
+        if isinstance(v_, (int, bytes)) and k_ not in consts:
+            consts[k_] = v_
     c = Contract(
         target="_sphere:copy_samples",
         uses=["A-PYSEM", "A-IO-STREAM", "A-NP-CAT", "A-NP-SLICE"],
@@ -204,6 +213,9 @@ def contract():
             ("buf", "buf_size == BUFK() * CW() and BUFK() >= 1"),
         ])},
         ensures=[
+            # an uncompressed data section (one that does not START with the shorten magic) is never handed to the shorten decoder,
+            # whatever bytes follow later in the file
+            ("uncompressed_data_never_reaches_the_shorten_decoder", "implies(not MAGIC0(), not shorten)"),
             ("sample_count", "implies(not shorten, COUNT(result) == NRET() * chancount)"),
             ("shape", "implies(not shorten, SHAPE_OK(result))"),
             ("values", "implies(not shorten, forall(t, 0, NRET() * chancount, FLAT(result, t) == VAL(t)))"),
@@ -239,6 +251,14 @@ def to_case(ob):
 
     if c and sc and blen is not None and c <= 64 and sc <= 40000:
         add(c, sc, max(0, sc * c * w - blen))
+    if "shorten" in ob.id:
+        # the shorten magic at the start of a later read: what the data holds there must not matter
+        for c2 in (1, 3, 2):
+            per = max(1, 16384 // (c2 * w)) * c2 * w
+            for mult in (1, 2):
+                for cod in ((coding, "pcm01") if w == 2 else (coding,)):
+                    out.append({"kind": "plain", "c": c2, "n": (mult * per) // (c2 * w) + 50, "coding": cod, "hdr": 1024, "seed": 0, "via": "bytes", "dtype": dtype,
+                                "magic_at": mult * per})
     for c2 in (1, 2, 3, 5, 7, 8):
         per = 16384 // (c2 * w)
         for n2 in (1, 7, per - 1, per, per + 1, 2 * per + 1):
